@@ -278,6 +278,8 @@ mod probes {
             if input["duplicates"].as_bool().unwrap_or(false) { tokens.push("<bos>".into()); tokens.push("<x>".into()); }
             // a user token spelled like a generated padding token (pad_to_multiple_of)
             if input["collision"].as_bool().unwrap_or(false) { tokens.push("<extra_token_0>".into()); }
+            // a special token that is a single character outside every regular alphabet
+            if input["single_char"].as_bool().unwrap_or(false) { tokens.push("\u{b6}".into()); }
             SpecialConfig { pad: "<pad>".into(), tokens, prefix: vec!["<bos>".into()], suffix: vec!["<eos>".into()] }
         }
         /// pad / prefix / suffix / special ids lie inside the vocabulary and are distinct from every regular id
@@ -315,8 +317,12 @@ mod probes {
                     let input = json!({"kind": "byte", "merges": [], "duplicates": dup, "pad_to": pad_to, "collision": collision});
                     if let Err(e) = replay(&input) { return Some((input, e)); }
                 } }
-                let input = json!({"kind": "char", "merges": [], "duplicates": dup});
-                if let Err(e) = replay(&input) { return Some((input, e)); }
+                for single_char in [false, true] {
+                    let input = json!({"kind": "char", "merges": [], "duplicates": dup, "single_char": single_char});
+                    if let Err(e) = replay(&input) { return Some((input, e)); }
+                    let input = json!({"kind": "byte", "merges": [], "duplicates": dup, "single_char": single_char});
+                    if let Err(e) = replay(&input) { return Some((input, e)); }
+                }
             }
             None
         }
@@ -544,10 +550,29 @@ mod probes {
 
         pub fn replay(input: &Value) -> Result<(), String> {
             let lengths: Vec<usize> = input["lengths"].as_array().ok_or("lengths")?.iter().map(|x| x.as_u64().unwrap() as usize).collect();
+            if input["strategy"].as_str() == Some("weighted-repro") { return check_repro(lengths, input["seed"].as_u64().unwrap_or(0)); }
             check(lengths, input["strategy"].as_str().unwrap_or("interleaved"), input["seed"].as_u64().unwrap_or(1))
         }
 
+        /// the weighted strategy is reproducible from the seed: two generators with the same seed yield the same source order
+        pub fn check_repro(lengths: Vec<usize>, seed: u64) -> Result<(), String> {
+            let run = |ls: &Vec<usize>| -> Option<Vec<usize>> {
+                let gens: Vec<TrainDataGenerator> = ls.iter().enumerate().map(|(k, n)| source(k, *n)).collect();
+                MultiTrainDataGenerator::new(gens, GenerationStrategy::Weighted, Some(seed)).ok().map(|g| g.take(10_000).map(|(_, k)| k).collect())
+            };
+            let (a, b) = (run(&lengths), run(&lengths));
+            if a != b { return Err(format!("weighted generator over sources of lengths {lengths:?} with seed {seed} is not reproducible: {a:?} vs {b:?}")); }
+            Ok(())
+        }
+
         pub fn search() -> Option<(Value, String)> {
+            for seed in [0u64, 1, 7, u64::MAX] {
+                for c in [vec![40usize, 25, 35], vec![5, 5], vec![9, 1, 30]] {
+                    if let Err(e) = check_repro(c.clone(), seed) {
+                        return Some((json!({"lengths": c, "strategy": "weighted-repro", "seed": seed}), e));
+                    }
+                }
+            }
             let configs: Vec<Vec<usize>> = vec![vec![1], vec![3], vec![1, 3], vec![3, 1], vec![2, 2], vec![0, 2], vec![2, 0, 1], vec![1, 2, 3], vec![3, 1, 2, 1]];
             for strategy in ["sequential", "interleaved", "weighted"] {
                 for c in &configs {
